@@ -711,7 +711,18 @@ func WebP(t *rapid.T, o Opts) File {
 			}
 			f.ICC = ProfilePayload(t, "icc", ICCSize(t, "iccsize", max))
 			f.HasICC = true
+			if rapid.IntRange(0, 5).Draw(t, "chunkbeforeiccp") == 0 {
+				// the ICC flag is set but another chunk stands where the ICCP chunk belongs: the profile is out of place
+				// (no profile to expect; what the loader says about it must not depend on how the bytes arrive)
+				fc := rapid.SampledFrom([]string{"EXIF", "XMP ", "ANIM", "ALPH", "JUNK"}).Draw(t, "strayfourcc")
+				w.Chunks = append(w.Chunks, build.RIFFChunk{FourCC: fc, Data: body(rapid.IntRange(0, 60).Draw(t, "straylen"))})
+				f.HasICC = false
+				f.Notes = append(f.Notes, "a "+fc+" chunk between VP8X and ICCP")
+			}
 			w.Chunks = append(w.Chunks, build.RIFFChunk{FourCC: "ICCP", Data: f.ICC})
+			if !f.HasICC {
+				f.ICC = nil
+			}
 		}
 		for _, fc := range []string{"ANIM", "ALPH", "EXIF", "XMP "} {
 			if rapid.IntRange(0, 3).Draw(t, "opt"+fc) == 0 {
